@@ -143,7 +143,7 @@ def run(ck, models, tier):
                 ck.ob("R3.1", "raw-store/%s" % short(fn), tm.target, False, "%s in %s: a store through a raw pointer outside the allow-list" % (name, short(fn)), w)
             elif kind == "indirect":
                 ck.ob("R3.1", "indirect-call/%s" % short(fn), tm.target, False, "indirect call in %s: callee unknown, could write anywhere" % short(fn), w)
-        ck.floor("R3.1", "raw-copy-sites", n_raw, 2, tm.target)
+        ck.floor("R3.1", "raw-copy-sites", n_raw, 1, tm.target)       # at least the code copy itself (the byte reader need not use a raw-write primitive)
         # ---------------- R3.9 functions that were not named keep running: a protection change made on the way to (or back from) a patch never
         # takes execute or read permission away from the page - the page also holds the entry's neighbours, and other threads are executing them
         if tm.os in ("linux", "windows"):
@@ -158,6 +158,8 @@ def run(ck, models, tier):
                             const_ = isinstance(pv, Int) and pv.is_const()
                             val = pv.cval() if const_ else None
                             keeps = const_ and ((val & 5) == 5 if tm.os == "linux" else val in (0x20, 0x40, 0x80))
+                            if not const_ and isinstance(pv, Int) and pv.e.op == "out" and pv.e.args[0] == "injector_core::winapi::VirtualProtect" and pv.e.args[2] == 3:
+                                keeps = True         # the previous protection of the page, as reported by an earlier VirtualProtect: the page held running code
                             ck.ob("R3.9", "%s/%s/keeps-read-execute" % (tm.os, short(ev.name)), tm.target, keeps,
                                   "protection change in %s (reached from %s) requests %s: the page %s readable and executable for the code around the entry" % (
                                       short(fn_of_event(ev)), short(p), ("%#x" % val) if const_ else fmt(pv.e, 3) if isinstance(pv, Int) else pv,
